@@ -335,17 +335,18 @@ SelfSrcs(v) == IF Alias THEN {[f |-> "self", x |-> i] : i \in 0..(vec[v].sz - 1)
 OpsOf(v) ==
   LET n == vec[v].sz
       S == ArgSrcs(v) \cup SelfSrcs(v)
+      SC == ExtSrcs \cup SelfSrcs(v)            \* insert(pos, n, const V&) / resize(n, const V&)
       others == {w \in Vecs : w # v /\ alive[w]}
   IN IF alive[v]
      THEN {O("pb", v, 0, 0, 0, s, <<>>) : s \in S}
        \cup {O("pop", v, 0, 0, 0, NoSrc, <<>>)}
        \cup {O("ins", v, 0, a, 0, s, <<>>) : a \in 0..n, s \in S}
-       \cup {O("insn", v, 0, a, b, s, <<>>) : a \in 0..n, b \in 0..MaxN, s \in S}
+       \cup {O("insn", v, 0, a, b, s, <<>>) : a \in 0..n, b \in 0..MaxN, s \in SC}
        \cup {O("insr", v, 0, a, 0, NoSrc, q) : a \in 0..n, q \in SeqsUpTo(MaxN)}
        \cup {O("era", v, 0, a, 0, NoSrc, <<>>) : a \in 0..(n - 1)}
        \cup {O("erar", v, 0, ab[1], ab[2], NoSrc, <<>>) : ab \in {x \in (0..n) \X (0..n) : x[1] <= x[2]}}
        \cup {O("rsz", v, 0, 0, b, NoSrc, <<>>) : b \in 0..MaxCap}
-       \cup {O("rszv", v, 0, 0, b, s, <<>>) : b \in 0..MaxCap, s \in S}
+       \cup {O("rszv", v, 0, 0, b, s, <<>>) : b \in 0..MaxCap, s \in SC}
        \cup {O("res", v, 0, 0, b, NoSrc, <<>>) : b \in 0..MaxCap}
        \cup {O("clr", v, 0, 0, 0, NoSrc, <<>>)}
        \cup {O("asgn", v, 0, 0, b, s, <<>>) : b \in 0..MaxN, s \in ExtSrcs}
